@@ -86,7 +86,7 @@ def evaluate(text, env):
 
 
 # ---------------------------------------------------------------------- expression space
-LITS_FULL = ["0", "1", "2", "3", "7", "10", "0x10", "255", "65535", "4294967296", "0xfF", "0x0a"]
+LITS_FULL = ["0", "1", "2", "3", "7", "10", "0x10", "255", "65535", "4294967296", "0xfF", "0x0a", "9007199254740993", "0x7FFFFFFFFFFFFFFF"]
 LITS_SMALL = ["2", "3", "7", "10", "0x10"]
 OPS = ["+", "-", "*", "/"]
 
@@ -109,7 +109,7 @@ def expr_space(tier):
         add("(%s)" % a)
     for a, op, b in itertools.product(atoms_full, OPS, atoms_full):
         add("%s %s %s" % (a, op, b))
-    two = atoms_full if tier == "thorough" else LITS_FULL[:9] + ["A1"]
+    two = atoms_full if tier == "thorough" else LITS_FULL[:10] + ["A1", "9007199254740993"]
     for a, o1, b, o2, c in itertools.product(two, OPS, two, OPS, two):
         add("%s %s %s %s %s" % (a, o1, b, o2, c))
         add("%s %s (%s %s %s)" % (a, o1, b, o2, c))
